@@ -23,6 +23,7 @@ type Violation struct {
 	What   string          `json:"what"`
 	Replay json.RawMessage `json:"replay"`
 	Count  int             `json:"count"`
+	Shard  string          `json:"shard,omitempty"` // "i/n": the enumeration shard that found it
 }
 
 type Result struct {
@@ -123,7 +124,7 @@ func (c *Ctx) Violate(key, what string, replay interface{}) {
 		b = []byte(strconv.Quote(fmt.Sprint(replay)))
 	}
 	c.vseen[key] = len(c.Res.Violations)
-	c.Res.Violations = append(c.Res.Violations, Violation{Key: key, What: what, Replay: b, Count: 1})
+	c.Res.Violations = append(c.Res.Violations, Violation{Key: key, What: what, Replay: b, Count: 1, Shard: fmt.Sprintf("%d/%d", c.Shard, c.NShards)})
 }
 
 func (c *Ctx) Inexhaustive(why string) {
@@ -267,9 +268,31 @@ func Main(checks map[string]*Check) {
 			Property string          `json:"property"`
 			Key      string          `json:"key"`
 			Replay   json.RawMessage `json:"replay"`
+			Mode     string          `json:"mode"`
+			Shard    string          `json:"shard"`
 		}
 		if err := json.Unmarshal(b, &doc); err != nil {
 			HarnessFail("replay: %v", err)
+		}
+		if doc.Mode == "shard-history" {
+			// history-dependent violation: the failing case misbehaves only after the
+			// evaluations that precede it in its (deterministic) enumeration shard
+			var i, n int
+			fmt.Sscanf(doc.Shard, "%d/%d", &i, &n)
+			c := mkctx(i, n)
+			ck.Run(c)
+			hit := false
+			for _, v := range c.Res.Violations {
+				if v.Key == doc.Key {
+					hit = true
+					fmt.Printf("REPLAY property=%s key=%s violated=true (after the preceding evaluations of shard %s)\n%s\n", id, doc.Key, doc.Shard, v.What)
+				}
+			}
+			if hit {
+				os.Exit(1)
+			}
+			fmt.Printf("REPLAY property=%s key=%s violated=false (shard %s re-run)\n", id, doc.Key, doc.Shard)
+			os.Exit(0)
 		}
 		if ck.Replay == nil {
 			HarnessFail("check %s has no replay", id)
@@ -387,6 +410,26 @@ func Main(checks map[string]*Check) {
 				code = ee.ExitCode()
 			} else if err != nil {
 				code = -1
+			}
+			if code != 1 && v.Shard != "" {
+				// not reproducible in isolation: try again with its history, i.e. the
+				// same enumeration shard from a fresh process
+				doc["mode"], doc["shard"] = "shard-history", v.Shard
+				doc["note"] = "does not reproduce as a single case in a fresh process; reproduces after the preceding evaluations of its enumeration shard (state carried between requests)"
+				b, _ := json.MarshalIndent(doc, "", " ")
+				os.WriteFile(rp, b, 0o644)
+				cmd := exec.Command(os.Args[0])
+				cmd.Env = append(os.Environ(), "KMV_REPLAY="+rp, "GOMAXPROCS=2")
+				outb, err = cmd.CombinedOutput()
+				code = 0
+				if ee, ok := err.(*exec.ExitError); ok {
+					code = ee.ExitCode()
+				} else if err != nil {
+					code = -1
+				}
+				if code == 1 {
+					v.What = "[history-dependent: needs the preceding evaluations of shard " + v.Shard + "] " + v.What
+				}
 			}
 			if code != 1 {
 				tail := string(outb)
